@@ -39,6 +39,9 @@ func (x *Explorer) execFrom(fr *frame, b *ssa.BasicBlock, i int) {
 		case *ssa.Store:
 			addr, val := x.eval(fr, v.Addr), x.eval(fr, v.Val)
 			x.store(addr, val)
+			if x.Opts.OnStore != nil {
+				x.Opts.OnStore(x, fr.fn, v, addr, val)
+			}
 			if x.event(Event{Kind: EvStore, Instr: in, Fn: fr.fn, Depth: fr.depth, Addr: addr, Val: val}) {
 				return
 			}
